@@ -26,4 +26,7 @@ pub use logits::Logits;
 /// crate-private items so an external harness can call them directly.
 #[cfg(rten_verif)]
 #[doc(hidden)]
-pub mod verif {}
+pub mod verif {
+    pub use crate::sampler::verif_hooks::{multinomial, softmax_probs};
+    pub use fastrand;
+}
